@@ -5,18 +5,26 @@ From Ford Require Import Base.Str Sem.UseAssoc.
 Definition D (n : str) (k : kind) (p : perm) : decl := {| d_name := n; d_kind := k; d_perm := p |}.
 Definition U (t : str) (o : option (list (str * str))) (r : list (str * str)) : use_stmt :=
   {| u_target := t; u_only := o; u_renames := r |}.
-Definition Md (n : str) (p : perm) (ds : list decl) (a : list (str * bool)) (us : list use_stmt) : module :=
-  {| m_name := n; m_default := p; m_decls := ds; m_access := a; m_uses := us |}.
+Definition Md (n : str) (p : perm) (ds : list decl) (a : list (str * bool)) (us : list use_stmt)
+              (ns : list nscope) : module :=
+  {| m_name := n; m_default := p; m_decls := ds; m_access := a; m_uses := us; m_nested := ns |}.
+Definition Ns (path : list str) (kinds : list nkind) (ds : list decl) (us : list use_stmt) : nscope :=
+  {| s_path := path; s_kinds := kinds; s_decls := ds; s_uses := us |}.
 
 (* FORD lower-cases every name it stores or looks up *)
 Definition lower_pairs (l : list (str * str)) := map (fun lr => (lower (fst lr), lower (snd lr))) l.
+Definition lower_decls (ds : list decl) := map (fun d => D (lower (d_name d)) (d_kind d) (d_perm d)) ds.
+Definition lower_uses (us : list use_stmt) :=
+  map (fun u => U (lower (u_target u))
+                  (match u_only u with Some i => Some (lower_pairs i) | None => None end)
+                  (lower_pairs (u_renames u))) us.
 Definition lower_module (M : module) : module :=
   {| m_name := lower (m_name M); m_default := m_default M;
-     m_decls := map (fun d => D (lower (d_name d)) (d_kind d) (d_perm d)) (m_decls M);
+     m_decls := lower_decls (m_decls M);
      m_access := map (fun a => (lower (fst a), snd a)) (m_access M);
-     m_uses := map (fun u => U (lower (u_target u))
-                              (match u_only u with Some i => Some (lower_pairs i) | None => None end)
-                              (lower_pairs (u_renames u))) (m_uses M) |}.
+     m_uses := lower_uses (m_uses M);
+     m_nested := map (fun Sc => Ns (map lower (s_path Sc)) (s_kinds Sc) (lower_decls (s_decls Sc)) (lower_uses (s_uses Sc)))
+                     (m_nested M) |}.
 
 (* what the harness observed on the implementation for one unit (module or program):
    its name, whether it is a module (programs have no pub_* tables), and the eight dictionaries
@@ -24,11 +32,14 @@ Definition lower_module (M : module) : module :=
 Record unit_obs := { o_name : str; o_is_module : bool; o_pub : list table; o_all : list table }.
 (* a reference of unit [name] to the local identifier [id] of class c, resolved by FORD to an
    entity (or left unresolved) *)
-Record ref_obs := { f_unit : str; f_cls : cls; f_id : str; f_ent : option ent }.
+(* [f_path] = [] for a reference made by the unit itself, else the path of the nested scope *)
+Record ref_obs := { f_unit : str; f_path : list str; f_cls : cls; f_id : str; f_ent : option ent }.
+(* the four all_* dictionaries of a nested scope (procs, absinterfaces, types, vars) *)
+Record nest_obs := { q_unit : str; q_path : list str; q_all : list table }.
 Record run := { r_files : list str;          (* unit names in the order the files were read *)
                 r_order : list str;          (* the order in which FORD correlated the units *)
                 r_exc : bool;                (* Project.correlate raised CircularDependencyError *)
-                r_units : list unit_obs; r_refs : list ref_obs }.
+                r_units : list unit_obs; r_refs : list ref_obs; r_nested : list nest_obs }.
 Definition case := (graph * list run)%type.
 
 Definition reorder (g : graph) (files : list str) : graph :=
@@ -41,6 +52,22 @@ Definition table_eq (a b : table) : bool :=
 Definition nth_tab (l : list table) (i : nat) : table := nth i l [].
 Definition cls_idx (c : cls) : nat := match c with CProc => 0 | CAbs => 1 | CType => 2 | CVar => 3 end.
 
+(* every pair of l is an entry of the dictionary t *)
+Definition table_has (t : table) (l : list (str * ent)) : bool :=
+  forallb (fun kv => match assoc_get (fst kv) t with Some e => ent_eqb e (snd kv) | None => false end) l.
+Definition find_nested (M : module) (path : list str) : option nscope :=
+  find (fun Sc => list_eqb str_eqb (s_path Sc) path) (m_nested M).
+(* procedures contained in a module share its all_types / all_vars / all_absinterfaces dictionaries
+   (C07): for a module with nested scopes these three are compared as lower bounds *)
+Definition shared_with_nested (M : module) (c : cls) : bool :=
+  match m_nested M, c with
+  | [], _ => false
+  | _, CProc => false
+  | _, _ => true
+  end.
+Definition lookup (n : str) (l : list (str * ent)) : option ent :=
+  match find (fun kv => str_eqb (fst kv) n) l with Some kv => Some (snd kv) | None => None end.
+
 Definition model_ok (g : graph) (r : run) : bool :=
   match toposort g with
   | None => r_exc r
@@ -52,18 +79,48 @@ Definition model_ok (g : graph) (r : run) : bool :=
                            | None => false
                            | Some M =>
                              (negb (o_is_module o) || table_eq (nth_tab (o_pub o) (cls_idx c)) (fst (st_tabs st M)))
-                             && table_eq (nth_tab (o_all o) (cls_idx c)) (snd (st_tabs st M))
+                             && (if shared_with_nested M c
+                                 then table_has (nth_tab (o_all o) (cls_idx c)) (snd (st_tabs st M))
+                                 else table_eq (nth_tab (o_all o) (cls_idx c)) (snd (st_tabs st M)))
                            end) (r_units r)
+         && forallb (fun q => match find_module g (q_unit q) with
+                              | None => false
+                              | Some M =>
+                                match find_nested M (q_path q) with
+                                | None => false
+                                | Some Sc => table_has (nth_tab (q_all q) (cls_idx c))
+                                                      (nested_lower_model c g (r_order r) M Sc)
+                                end
+                              end) (r_nested r)
          && forallb (fun f => negb (cls_eqb (f_cls f) c) ||
                               match find_module g (f_unit f) with
                               | None => false
-                              | Some M => opt_eqb ent_eqb (assoc_get (f_id f) (snd (st_tabs st M))) (f_ent f)
+                              | Some M =>
+                                match f_path f with
+                                | [] => opt_eqb ent_eqb (assoc_get (f_id f) (snd (st_tabs st M))) (f_ent f)
+                                | _ => match find_nested M (f_path f) with
+                                       | None => false
+                                       | Some Sc =>
+                                         match lookup (f_id f) (nested_lower_model c g (r_order r) M Sc) with
+                                         | Some e => opt_eqb ent_eqb (Some e) (f_ent f)
+                                         | None => true     (* may still resolve through C07's leaks *)
+                                         end
+                                       end
+                                end
                               end) (r_refs r)) all_cls
     && Nat.eqb (length (r_units r)) (length g)
   end.
 
+(* the Spec's lower bound for a nested scope is only asked when it is unambiguous and not shadowed
+   by a declaration local to the scope or to one of its hosts *)
+Definition nested_clear (g : graph) (M : module) (Sc : nscope) : bool :=
+  let l := flat_map (fun c => nested_lower_spec c g M Sc) all_cls in
+  functional_b l
+  && forallb (fun ne => negb (str_in (fst ne) (flat_map (fun H => map d_name (s_decls H)) (hosts M Sc)))) l.
+
 (* the property on the implementation's output: every dictionary denotes the Spec's set, every
-   reference resolves to the entity the Spec designates *)
+   reference resolves to the entity the Spec designates; in a nested scope every identifier the
+   Spec makes accessible by use association (or from the module, for procedures) is there *)
 Definition spec_ok (g : graph) (r : run) : bool :=
   negb (r_exc r)
   && forallb (fun c =>
@@ -71,36 +128,62 @@ Definition spec_ok (g : graph) (r : run) : bool :=
                          | None => false
                          | Some M =>
                            (negb (o_is_module o) || table_is (nth_tab (o_pub o) (cls_idx c)) (accessible c g M))
-                           && table_is (nth_tab (o_all o) (cls_idx c)) (scope c g M)
+                           && (if shared_with_nested M c
+                               then table_has (nth_tab (o_all o) (cls_idx c)) (scope c g M)
+                               else table_is (nth_tab (o_all o) (cls_idx c)) (scope c g M))
                          end) (r_units r)
+       && forallb (fun q => match find_module g (q_unit q) with
+                            | None => false
+                            | Some M =>
+                              match find_nested M (q_path q) with
+                              | None => false
+                              | Some Sc => negb (nested_clear g M Sc)
+                                          || table_has (nth_tab (q_all q) (cls_idx c)) (nested_lower_spec c g M Sc)
+                              end
+                            end) (r_nested r)
        && forallb (fun f => negb (cls_eqb (f_cls f) c) ||
                             match find_module g (f_unit f) with
                             | None => false
                             | Some M =>
-                              match f_ent f with
-                              | Some e => in_b (f_id f) e (scope c g M)
-                              | None => negb (str_in (f_id f) (map fst (scope c g M)))
+                              match f_path f with
+                              | [] => match f_ent f with
+                                      | Some e => in_b (f_id f) e (scope c g M)
+                                      | None => negb (str_in (f_id f) (map fst (scope c g M)))
+                                      end
+                              | _ => match find_nested M (f_path f) with
+                                     | None => false
+                                     | Some Sc =>
+                                       negb (nested_clear g M Sc) ||
+                                       match lookup (f_id f) (nested_lower_spec c g M Sc) with
+                                       | Some e => opt_eqb ent_eqb (Some e) (f_ent f)
+                                       | None => true
+                                       end
+                                     end
                               end
                             end) (r_refs r)) all_cls.
 
 Definition region_bits (g : graph) : nat :=
   (if region_rename g then 1 else 0) + (if region_private g then 2 else 0)
-  + (if region_only_empty g then 4 else 0) + (if region_only_dup g then 8 else 0).
+  + (if region_only_empty g then 4 else 0) + (if region_only_dup g then 8 else 0)
+  + (if region_uncounted g then 16 else 0).
 
 (* acyclic = the toposort model succeeds; the Spec is only asked about legal programs (region
-   value 16 marks the programs that are not: ambiguous identifiers, cycles, self use) *)
+   value 32 marks the programs that are not: ambiguous identifiers, cycles, self use) *)
 Definition judge_run (g0 : graph) (r : run) : nat :=
   let g := reorder (map lower_module g0) (map lower (r_files r)) in
   let legal := wf_graph g && match toposort g with Some _ => true | None => false end in
-  verdict (negb (model_ok g r)) (legal && negb (spec_ok g r)) (region_bits g + (if legal then 0 else 16)).
+  verdict (negb (model_ok g r)) (legal && negb (spec_ok g r)) (region_bits g + (if legal then 0 else 32)).
 Definition judge (c : case) : nat := fold_left Nat.lor (map (judge_run (fst c)) (snd c)) 0.
 
 (* short constructors for runs *)
 Definition Ob (n : str) (is_mod : bool) (pub all : list table) : unit_obs :=
   {| o_name := n; o_is_module := is_mod; o_pub := pub; o_all := all |}.
-Definition Rf (u : str) (c : cls) (id : str) (e : option ent) : ref_obs :=
-  {| f_unit := u; f_cls := c; f_id := id; f_ent := e |}.
-Definition R (files order : list str) (obs : list unit_obs * list ref_obs) : run :=
-  {| r_files := files; r_order := order; r_exc := false; r_units := fst obs; r_refs := snd obs |}.
+Definition Rf (u : str) (path : list str) (c : cls) (id : str) (e : option ent) : ref_obs :=
+  {| f_unit := u; f_path := path; f_cls := c; f_id := id; f_ent := e |}.
+Definition Nb (u : str) (path : list str) (all : list table) : nest_obs :=
+  {| q_unit := u; q_path := path; q_all := all |}.
+Definition R (files order : list str) (obs : list unit_obs * list ref_obs * list nest_obs) : run :=
+  {| r_files := files; r_order := order; r_exc := false; r_units := fst (fst obs); r_refs := snd (fst obs);
+     r_nested := snd obs |}.
 Definition RX (files : list str) : run :=
-  {| r_files := files; r_order := []; r_exc := true; r_units := []; r_refs := [] |}.
+  {| r_files := files; r_order := []; r_exc := true; r_units := []; r_refs := []; r_nested := [] |}.
